@@ -27,3 +27,10 @@ Ltac decide_branches :=
 
 Ltac rclose := decide_branches; interval with (i_prec 90).
 Ltac rclose_hi := decide_branches; interval with (i_prec 200).
+
+(* full computation of everything except the real-number primitives: used when the model
+   contains Z / list computations (factorials, ranges) that must be evaluated before interval *)
+Ltac rcompute :=
+  cbv -[Rplus Rminus Rmult Rdiv Ropp Rinv Rabs Rle Rlt Rge Rgt IZR pow sqrt cos sin tan atan exp ln PI
+        Rlt_dec Rle_dec Rsqr].
+Ltac rcompute_close := rcompute; rclose.
